@@ -52,3 +52,14 @@ Theorem C10_tracker_from_source : forall st o,
   Proofs.TrackerIRTie.run_generated st o = Some (Model.Tracker.tstep st o).
 Proof. exact Proofs.TrackerIRTie.tracker_from_source. Qed.
 Print Assumptions C10_tracker_from_source.
+
+(* ---------- "handed over only after the write" is read from the source ----------
+   C10_causal assumes that a login reaches the correlator only after its UserLogin was written.  In the
+   model that is the shape of [write_forward]; for all 20 handlers the model's handler IS the
+   interpretation of the decision tree regenerated from the handler's Go body on every run, whose leaves
+   write first and offer the login afterwards. *)
+From AM Require Gen.SshdDispatch Gen.SshdHandlers Model.SshdProc Model.SshdSketch Proofs.SshdHandlersTie.
+Theorem C10_all_handlers_from_source : forall h c tok line wok ready,
+  Model.SshdSketch.run_generated h c tok line wok ready = Some (Model.SshdProc.run_handler h c tok line wok ready).
+Proof. exact Proofs.SshdHandlersTie.all_handlers_from_source. Qed.
+Print Assumptions C10_all_handlers_from_source.
